@@ -72,3 +72,12 @@ package vgirpc
 //@ func ReadRequest
 //@   property C02
 //@   at call ipc.NewReader assert [noreadahead] arg0 == r
+
+// (recorded finding) on the pipe the same batch is refused by the IPC writer, which serveStream
+// takes for a transport failure: the stream ends without an exception batch and the serve loop
+// drops the connection, so the next request is never answered.
+//
+//@ ghost pred fitsStream(b arrow.RecordBatch, s *arrow.Schema)
+//@ func (*Server).serveStream
+//@   property C02
+//@   at call (*ipc.Writer).Write assert [datashape] fitsStream(arg1, outputSchema)
